@@ -175,6 +175,59 @@ def handle (op : String) (args : List String) (impl : String) : Option Verdict :
       sent == "sent=1" && valid == "valid=" ++ bits (List.replicate n true)
     let inOrder := arr.filterMap id |>.map (·.1)
     return ⟨m, ok && (impl == m || sent == "sent=0"), s!"btcwitness:n={n}:sorted={decide (inOrder.Pairwise (· ≤ ·))}:dups={inOrder.eraseDups.length != inOrder.length}"⟩
+  | "endstore", [kind, kp, _kthr, store, nthr] => some <| Id.run do
+    let some nthr := nthr.toInt? | return bad
+    let old := if kp = "none" then [] else peers kp
+    let st := storedAtEnd old nthr (peers store)
+    let m := s!"thr={st.1};peers={showPeers st.2};pub=1"
+    -- the share goes to the store with the NEW threshold and the NEW committee (as a set), key material intact
+    let ok := match impl.splitOn ";" with
+      | [t, p, pub] => t == s!"thr={nthr}" && pub == "pub=1" &&
+          (match p.splitOn "=" with | [_, ps] => (peers ps).isPerm (peers store) | _ => false)
+      | _ => false
+    return ⟨m, ok, s!"endstore:{kind}:old={if kp = "none" then "none" else if (peers kp).isPerm (peers store) then "same" else "other"}"⟩
+  | "rerun", [kind, self, subsets, probes, holders] => some <| Id.run do
+    let hs := peers holders
+    let some self := self.toNat? | return bad
+    let pick (idx : String) : Option (List (Nat × Peer)) := (natList idx).bind fun is => is.mapM fun i => (hs[i]?).map fun p => (i, p)
+    let some subs := (subsets.splitOn "|").mapM pick | return bad
+    let some prbs := (probes.splitOn "|").mapM pick | return bad
+    let some me := hs[self]? | return bad
+    let bit (b : Bool) : String := if b then "1" else "0"
+    let rd := joinOr (prbs.map fun pr => bit (ready hs 1 (pr.map (·.2)))) ","
+    let ns := joinOr (prbs.map fun pr => toString (subsetSize hs 1 (pr.map (·.2)))) ","
+    let mut st : PartyStore := []
+    let mut ms : List String := []
+    let mut ok := true
+    let outs := impl.splitOn "/"
+    let mut j := 0
+    let mut moved := false
+    let mut prevIdx : Option Nat := none
+    for sub in subs do
+      let member := (sub.map (·.2)).contains me
+      st := signingRunStore me st (sub.map (·.2))
+      let idx := if kind = "ecdsa" then
+          joinOr (sub.map fun (i, p) => s!"{i}:{match st.lookup p with | some k => toString k | none => "-"}") ","
+        else "-"
+      ms := ms ++ [s!"{if member then "started" else "notmember"};idx={idx};ready={rd};n={ns}"]
+      -- the property, against the history-free answer: after a run that took part, every member of the CURRENT subset
+      -- has its index in PartiesFromPeers(current subset); Ready / StartParams answer as on a fresh object
+      let want := if kind = "ecdsa" && member then
+          let ps := partiesFromPeers (sub.map (·.2))
+          joinOr (sub.map fun (i, p) => s!"{i}:{match ps.find? (·.id == p) with | some q => toString q.index | none => "-"}") ","
+        else ""
+      if kind = "ecdsa" && member then
+        let mine := (partiesFromPeers (sub.map (·.2))).find? (·.id == me) |>.map (·.index)
+        if prevIdx.isSome && prevIdx != mine then moved := true
+        prevIdx := mine
+      match (outs.getD j "").splitOn ";" with
+      | [r, ix, ird, ins] =>
+        ok := ok && r == (if member then "started" else "notmember") && ird == s!"ready={rd}" && ins == s!"n={ns}" &&
+          (want == "" || ix == s!"idx={want}")
+      | _ => ok := false
+      j := j + 1
+    if outs.length != subs.length then ok := false
+    return ⟨joinOr ms "/", ok, s!"rerun:{kind}:runs={min subs.length 4}:index-moved={moved}"⟩
   | "resharerun", _ => some ⟨"ok", impl == "ok", "resharerun"⟩
   | "signrun", _ => some ⟨"ok", impl == "ok", "signrun"⟩
   | "keygenrun", _ => some ⟨"ok", impl == "ok", "keygenrun"⟩
